@@ -442,7 +442,7 @@ def rawCopy (ext : WExt) (src : FileData) (raw : Bytes) (name : Bytes) : Step Un
               else src.uncompressedSize) > ZIP64_BYTES_THR
   let o : FileOptions := {
     method := src.method, level := none, time := src.time,
-    permissions := src.unixMode.map (· &&& 0o777), largeFile := big, encryptWith := none }
+    permissions := src.unixMode, largeFile := big, encryptWith := none }
   let (r, s) ← startEntry ext name o (some (src.crc32, src.compressedSize, src.uncompressedSize)) s
   match r with
   | .error e => pure (.error e, s)
